@@ -58,10 +58,10 @@ CLAIMED = {
          "Structural part only: control expressions held privately, fresh loop variable per iteration, error exits, presence of both comparisons on every counter update. The arithmetic progression itself is value-level and not decided.",
          "Trusted: go/ssa. Not decided: correctness of the comparisons, float-limit clipping, iteration counts.",
          "DESIGN.md 3 (R-FOR), 4 (C16)"),
- "C07": ("def-use dependency slices on SSA (what the stored limits depend on), pruned-CFG reachability for 'refresh on every path when time is tracked', who-may-write table for the status field, after-call effect analysis in CallContext, monotone-flag check",
+ "C07": ("def-use dependency slices on SSA (what the stored limits depend on), pruned-CFG reachability for 'refresh on every path when time is tracked', who-may-write table for the status field, after-call effect analysis in CallContext, monotone-flag check, push/pop bracket enumeration with VTA call-graph reachability from the bracketed calls to the coroutine hand-off (context stack held across a yield)",
          "Dependency-presence and ownership conditions: breaking any one lets a child context exceed what its parent has left, keeps consumption from being charged back, or lets Lua run with limits switched off / a wrong status be reported. The numeric limit algebra is not decided.",
          "Trusted: go/ssa def-use. Not decided: uint64 limit arithmetic with 0 = unlimited.",
-         "DESIGN.md 3 (R-CONTEXT), 4 (C07)"),
+         "DESIGN.md 3 (R-CONTEXT), 4 (C07), 10.2-10.3 (R-CTXSTACK)"),
  "C03": ("def-use and must-edge path facts on SSA for key normalisation across five sibling functions; type-switch agreement between Equals and Hash; who-may-write on slot keys; store-ordering check in the insertion routine; CFG ordering of raw access vs metamethod lookup",
          "Structural necessary conditions of map behaviour with normalised keys: each is such that breaking it makes some key unreachable, some equal pair address two fields, or a metamethod see a present key. The chain invariants and traversal laws over histories are not decided.",
          "Trusted: go/ssa. Not decided: chain invariants I1-I3, border validity, traversal over all histories, numeric equality corners.",
